@@ -71,7 +71,7 @@ Definition compile_line (o : toracles) (v2 : bool) (serial : N) (l : bytes) : re
   let l := trim_spaces l in
   if compile_skips l then Ok ([], [])
   else rbind (parse_line o serial l) (fun r =>
-       rbind (acc_update r) (fun nets => Ok (convert o v2 true r, nets))).
+       rbind (acc_update r) (fun nets => Ok (convert v2 true r, nets))).
 
 Fixpoint compile_go (o : toracles) (v2 : bool) (serial : N) (f : list bytes) : result (list kv * list record) :=
   match f with
@@ -85,7 +85,7 @@ Fixpoint compile_go (o : toracles) (v2 : bool) (serial : N) (f : list bytes) : r
 Definition compile (o : toracles) (rearrange : list record -> list record) (v2 : bool) (serial : N) (f : list bytes)
   : result (list kv) :=
   rbind (compile_go o v2 serial f) (fun a =>
-  Ok (fst a ++ flat_map (convert o v2 true) (rearrange (snd a)) ++ [feature_kv v2])).
+  Ok (fst a ++ flat_map (convert v2 true) (rearrange (snd a)) ++ [feature_kv v2])).
 
 (* range point record from the accumulator's key and value (Rrangepoint.MarshalMap read backwards):
    key = 00 00 00 '!' lmap(2) ip(16) mlen, value = empty (no location) or the location *)
